@@ -34,4 +34,22 @@ PROPS = {
         "assumptions": ["comments well-formedness theorems are parametrised by the union laws proved in C20"],
         "explanation": "C14: OH/Props/C14.lean proves for arbitrary inputs: from_ranges is WF (disjoint, increasing, non-empty) and covers exactly the union of its inputs; insert/addition keep WF and give every minute the kind of the most recently added covering schedule (additions_state, folded over any finite sequence); every API-reachable schedule is WF/within/coalesced; iteration never hits the pre_yield assert, tiles 00:00-24:00, alternates kinds and shows closed in holes.",
     },
+    "C15": {
+        "suites": ["c15"],
+        "trivial_tags": ["hist-empty"],
+        "rule": "one line = one history on the real CompactCalendar (ins/has/after/year_for/count/iter/serialize/round-trip/deserialize steps), compared step by step with a plain sorted-set oracle written in Lean and with the model; dates in any order, duplicates, windows anywhere in -262000..262000 (span capped at 3000 years), day 31, Feb 29, December, queries before/inside/after the window; plus equality of permuted histories, concatenated streams, truncated and corrupted streams, CompactMonth/CompactYear methods on all 31 days x boundary masks; quick 5k histories, thorough 200k; distinct = distinct operation line; trivial = empty history",
+        "exhaustive": {"quick": False, "thorough": False},
+        "trusted_base": TB_COMMON + ["modelled, not verified: chrono's from_ymd_opt validity (Gregorian leap rule), VecDeque push_front/push_back as list cons/append, native-endian = little-endian serialization on this target, u32 trailing_zeros/count_ones as least-set-bit search/popcount on Nat masks"],
+        "assumptions": ["inserted dates are dates chrono can build (years -262143..262142)"],
+        "explanation": "C15: OH/Props/C15.lean proves, for every insertion history of valid dates: no panic, the window invariant, abs = inserted dates, insert reports newness, contains/count/ordered iteration/first_after agree with the sorted set (first_after for any query before, inside or after the window), structural equality = set equality on reachable calendars, deserialize(serialize c ++ rest) = (c, rest) and the stream version.",
+    },
+    "C01": {
+        "suites": ["c01", "cal"],
+        "trivial_tags": ["allclosed", "parse-error", "panic", "undefined-range"],
+        "rule": "c01: generated expressions (grammar-directed, every selector kind and syntactic variant, boundary-biased) and the suite's 200 sample expressions x days biased to leap days, month/year ends, ISO-week-53 years, Easter, 1900/9999 bounds, consecutive days (spans passing midnight), contexts with random/embedded-country holiday calendars and coordinates; the predicate c01Holds (pointwise equality with OH.Spec.dayState on all 1440 minutes) is evaluated on the implementation's schedule_at output; cal: the chrono tie of the calendar model (chr.* ops); distinct = distinct operation line; trivial = schedule closed all day, parse error, or a dated range the documented semantics do not define",
+        "exhaustive": {"quick": False, "thorough": False},
+        "trusted_base": TB_COMMON + ["the specification OH/Spec/Rules.lean is hand-written from the property text and the OSM semantics; where the text is silent (wrapping year range with step, wrapping week range with step, event offsets leaving 00:00-48:00) it adopts the code's reading and says so", "modelled, not verified: chrono (OH/Model/Calendar.lean, tied by the chr.* suite: every day 1900..9999 in the thorough tier), the sunrise crate (event times are a context parameter supplied by the harness)"],
+        "assumptions": ["dated ranges from a date without a year to a date with one have no documented meaning and are outside the scope (exprDefined)"],
+        "explanation": "C01: the documented semantics are the executable specification OH.Spec.dayState; the run-time oracle evaluates it on the implementation's output for every minute; the model (tied by correspondence: 0 disagreements) follows the repaired code. Proved so far: outside-range clauses, independence from the bound, holidays only from the context, closed forms of selector predicates; the refinement theorem model ⊑ spec is under construction and NOT claimed.",
+    },
 }
